@@ -490,6 +490,8 @@ impl<'a> TrigramIter<'a> {
         Some(gram)
     }
 }
+// @item rust/core/src/store/mod.rs :: static DEFAULT_LIMIT
+pub const DEFAULT_LIMIT: usize = 10;
 // @item rust/core/src/store/record.rs :: struct Record
 pub struct Record {
     pub ix: usize,
